@@ -12,6 +12,7 @@ import (
 	"github.com/form3tech-oss/f1/v2/internal/options"
 	"github.com/form3tech-oss/f1/v2/internal/trigger/api"
 	"github.com/form3tech-oss/f1/v2/internal/trigger/constant"
+	"github.com/form3tech-oss/f1/v2/internal/trigger/gaussian"
 	"github.com/form3tech-oss/f1/v2/internal/trigger/ramp"
 	"github.com/form3tech-oss/f1/v2/internal/trigger/staged"
 	"github.com/form3tech-oss/f1/v2/internal/ui"
@@ -110,11 +111,13 @@ func TestC13Triggers(t *testing.T) {
 	jitters := []float64{0.5, 2, 20, 50, 60, 99, 33.3, 75.25}
 	for i := 0; i < kit.N(90, 1200); i++ {
 		j := jitters[r.Intn(len(jitters))]
-		mode := []string{"constant", "ramp", "staged"}[i%3]
+		mode := []string{"constant", "ramp", "staged", "gaussian"}[i%4]
 		a, b := r.Range(1, 3000), r.Range(1, 3000)
 		start := time.Unix(1_700_000_000, 0)
 		build := func(jj float64) (*api.Rates, error) {
 			switch mode {
+			case "gaussian":
+				return gaussian.CalculateGaussianRate(float64(100*a), jj, 200*time.Second, time.Second, 60*time.Second, 40*time.Second, "", "none")
 			case "ramp":
 				if a == b {
 					b++
@@ -132,7 +135,7 @@ func TestC13Triggers(t *testing.T) {
 			continue
 		}
 		jRate, pRate := jr.Rate, pr.Rate
-		if i%2 == 1 && mode != "staged" {
+		if i%2 == 1 && mode != "staged" && mode != "gaussian" {
 			// the same through the command's flag set (--jitter among the options)
 			flagsFor := func(jj float64) map[string]string {
 				f := map[string]string{"distribution": "none", "jitter": strconv.FormatFloat(jj, 'g', -1, 64)}
